@@ -87,12 +87,73 @@ def real_thread_runs(ctx):
     return {"violations": viol, "disagreements": [], "coverage": {"real_thread_runs_with_observers": done}}
 
 
+def registry_cycle_runs(ctx, replay=None):
+    """A dependency cycle in a plan that is run WITH a registry: the stale check examines the whole plan, so the cycle must be
+    reported before any store is asked for its modified time, read or written and before any call executes."""
+    import uberjob
+    from harness import cache_explore as ce
+    from harness import plans
+    rng = random.Random(ctx.seed * 77 + 5)
+    n = 40 if ctx.tier == "quick" else 1500
+    viol, done, with_prefix = [], 0, 0
+    cases = [replay["cycle_case"]] if replay else None
+    for k in range(len(cases) if cases else n):
+        if cases:
+            spec, (u, v), out, workers = cases[k]["spec"], cases[k]["back"], cases[k]["out"], cases[k]["workers"]
+        else:
+            spec = ce.gen_cache_spec(rng, nmax=8)
+            g = nx.DiGraph()
+            for nd in spec["nodes"]:
+                g.add_node(nd["id"])
+                for p in nd["args"] + nd["deps"]:
+                    g.add_edge(p, nd["id"])
+            pairs = [(a, d) for a in g.nodes() for d in nx.descendants(g, a)]
+            if not pairs:
+                continue
+            u, v = rng.choice(pairs)                 # v depends on u: the extra dependency v -> u closes a cycle
+            out = rng.sample(list(g.nodes()), min(len(g), rng.choice([0, 1, 2])))
+            workers = rng.choice([1, 2, 4])
+        env = ce.Env()
+        b = ce.build_cache(spec, env)
+        for nd in spec["nodes"]:                     # sources hold something, so that nothing else can fail first
+            if nd["kind"] in ("source", "dsource"):
+                b.stores[nd["id"]].value, b.stores[nd["id"]].mtime = ("s", nd["id"], 1), env.tick()
+        b.plan.add_dependency(b.N[v], b.N[u])
+        env.rec = plans.Rec()
+        exc = None
+        try:
+            uberjob.run(b.plan, registry=b.reg, output=[b.N[i] for i in out] or None, max_workers=workers, progress=None)
+        except BaseException as e:      # noqa: BLE001
+            exc = e
+        done += 1
+        anc_free = [e for e in env.rec.events]
+        with_prefix += any(nd["kind"] in ("source", "stored", "dsource") for nd in spec["nodes"])
+        case = {"spec": spec, "back": [u, v], "out": out, "workers": workers}
+        if not isinstance(exc, nx.HasACycle):
+            viol.append({"property": "C07", "what": f"a dependency cycle ({v} -> {u} -> ... -> {v}) in a plan run with a registry was not "
+                         f"reported: run gave {exc!r}", "replay_fn": "registry_cycle", "cycle_case": case})
+        elif anc_free:
+            viol.append({"property": "C07", "what": "the cycle was reported only AFTER stores had been accessed / calls executed: "
+                         f"{anc_free[:5]}", "replay_fn": "registry_cycle", "cycle_case": case})
+        if viol:
+            break
+    return {"violations": viol, "disagreements": [], "coverage": {"registry_cycle_runs": done, "registry_cycle_with_stores": with_prefix}}
+
+
 def extras(ctx, replay=None):
+    if replay is not None:
+        if replay.get("replay_fn") == "registry_cycle":
+            r = registry_cycle_runs(ctx, replay=replay)
+            return r["violations"][0]["what"] if r["violations"] else None
+        return None
     a = kahn_diff(ctx)
     b = real_thread_runs(ctx)
+    c = registry_cycle_runs(ctx)
     cov = dict(a["coverage"])
     cov.update(b["coverage"])
-    return {"violations": a["violations"] + b["violations"], "disagreements": a["disagreements"] + b["disagreements"], "coverage": cov}
+    cov.update(c["coverage"])
+    return {"violations": a["violations"] + b["violations"] + c["violations"],
+            "disagreements": a["disagreements"] + b["disagreements"], "coverage": cov}
 
 
 explore, search, replay = make({"C07"}, user_q=(50, 10, 40), user_t=(1200, 300, 1200), extra=extras)
